@@ -35,6 +35,8 @@ func checkC02(c *Ctx) {
 	ruleMailboxTransform(c, "C02.i")
 	c.rule("C02.j", "a decoded argument is stored into one field of the backend's option structure per path", 20)
 	ruleOneValueOneField(c, "C02.j")
+	c.rule("C02.k", "numeric option fields are encoded at their full width (no narrowing conversion)", 1)
+	ruleNoNarrowingOnEncode(c, "C02.k", "imapclient")
 	ruleNoSwallowedError(c, "C02.d", "imapserver", "internal")
 }
 
